@@ -123,6 +123,15 @@ func Generate(seed uint64, profile string) *Project {
 		c := Controller{Name: fmt.Sprintf("Ctl%c", 'A'+i), Pkg: pkg}
 		nFiles := r.Range(1, 3)
 		c.File = fmt.Sprintf("%s_f%d.go", strings.ToLower(c.Name), 0)
+		if profile == "order" && r.Chance(1, 3) {
+			// several controllers declared in ONE file (the file of an earlier controller of the package)
+			for _, prev := range p.Controllers {
+				if prev.Pkg == pkg {
+					c.File = prev.File
+					break
+				}
+			}
+		}
 		files := []string{c.File}
 		for f := 1; f < nFiles; f++ {
 			if r.Chance(1, 2) {
